@@ -388,6 +388,33 @@ def programs (G : TT S T) (fuel : Nat) : Option Nat :=
 
 end Programs
 
+
+/-! ## enumeration of the language of a table (specification of `programs()`) -/
+
+section LangT
+variable {S T : Type} [DecidableEq S] [DecidableEq T]
+
+/-- all ways to derive a list of argument slots one after the other, starting in state `v`:
+    (terms, end state) -/
+def seqsT (rec : Ty × S → T → List (Prog × T)) : List (Ty × S) → T → List (List Prog × T)
+  | [], v => [([], v)]
+  | a :: as, v => (rec a v).flatMap (fun tw => (seqsT rec as tw.2).map (fun kw => (tw.1 :: kw.1, kw.2)))
+
+/-- the terms derivable from `(slot, v)` within `k` levels, with the state each ends in -/
+def langT (G : TT S T) : Nat → Ty × S → T → List (Prog × T)
+  | 0, _, _ => []
+  | k + 1, slot, v =>
+    match AList.lookup (slot.1, (slot.2, v)) G.rules with
+    | none => []
+    | some row => row.flatMap (fun r =>
+        (seqsT (langT G k) r.2.1 r.2.2).map (fun kw => (Tree.node r.1 kw.1, kw.2)))
+
+/-- the programs of the grammar, enumerated within `k` levels -/
+def langOf (G : TT S T) (k : Nat) : List Prog :=
+  (langT G k (G.start.1, G.start.2.1) G.start.2.2).map (·.1)
+
+end LangT
+
 /-! ## product -/
 
 section Mul
